@@ -210,6 +210,17 @@ def u_requests(ctx, fn, rr=None, rand=None):
     ctx.check(f"{name}/post:all_builds_before_linking_and_counting", all(k < first_count for k, e in enumerate(log) if e[0] == "build"))
 
 
+
+def _register_shared():
+    """the per-patch reuse decision is only reached if the catalog dispatches a build for every patch on *every* call: the C05
+    unit on Catalog.build_trees, with its repeated-call cases, is part of this property"""
+    from . import C05 as _C05
+    unit(P, "Catalog.build_trees", fuc=["yaw.catalog.catalog:Catalog.build_trees"],
+         cases=[dict(binned=b, repeated=r) for b in (False, True) for r in (False, True)], trusted=["iter_unordered contract"])(_C05.u_cat_build_trees)
+
+
+# _register_shared() is called by the driver after this module is fully imported (no import cycles)
+
 # ---------------------------------------------------------------------------------------------------------
 # bounded stand-in / replay: real histories on real cache directories
 # ---------------------------------------------------------------------------------------------------------
@@ -220,6 +231,9 @@ def _histories(max_len=2):
     out = [()]
     for k in range(1, max_len + 1):
         out += list(itertools.product(ops, repeat=k))
+    # the same catalog objects measure, the caches are rebuilt through *other* handles of the same directories, the first
+    # objects measure again: nothing remembered in an object may stand in for the state of the cache
+    out += [("measure_same", "other_handle_other_edges"), ("measure_same", "other_handle_unbinned"), ("same", "other_handle_other_edges")]
     return out
 
 
@@ -258,29 +272,40 @@ def _run_histories(max_len=2, limit=None):
             hist = hist[:limit]
         for h_i, h in enumerate(hist):
             cats = list(fresh(f"h{h_i}"))
-            for op in h:
-                if op == "other_edges":
-                    for c in cats:
-                        c.build_trees([0.1, 0.25, 1.0] if c is not cats[1] else [0.1, 0.55, 1.0], closed="right") if c.has_redshifts else c.build_trees(None)
-                elif op == "other_closed":
-                    cats[0].build_trees([0.1, 0.4, 0.7, 1.0], closed="left")
-                    cats[2].build_trees([0.1, 0.4, 0.7, 1.0], closed="left")
-                elif op == "same":
-                    cats[0].build_trees([0.1, 0.4, 0.7, 1.0], closed="right")
-                elif op == "unbinned":
-                    for c in cats:
-                        c.build_trees(None)
-                elif op == "forced_other":
-                    cats[0].build_trees([0.1, 0.9, 1.0], closed="left", force=True)
-                    cats[2].build_trees([0.1, 0.9, 1.0], closed="left", force=True)
-                elif op == "reopen":
-                    cats = [yaw.Catalog(c.cache_directory) for c in cats]
-                elif op == "other_scales_measurement":
-                    other = yaw.Configuration.create(rmin=[100, 1000], rmax=[900, 20000], edges=[0.1, 0.55, 1.0], closed="left")
-                    measure(cats, other)
-            got = measure(cats, cfg)
+            try:
+                for op in h:
+                    if op == "other_edges":
+                        for c in cats:
+                            c.build_trees([0.1, 0.25, 1.0] if c is not cats[1] else [0.1, 0.55, 1.0], closed="right") if c.has_redshifts else c.build_trees(None)
+                    elif op == "other_closed":
+                        cats[0].build_trees([0.1, 0.4, 0.7, 1.0], closed="left")
+                        cats[2].build_trees([0.1, 0.4, 0.7, 1.0], closed="left")
+                    elif op == "same":
+                        cats[0].build_trees([0.1, 0.4, 0.7, 1.0], closed="right")
+                    elif op == "unbinned":
+                        for c in cats:
+                            c.build_trees(None)
+                    elif op == "forced_other":
+                        cats[0].build_trees([0.1, 0.9, 1.0], closed="left", force=True)
+                        cats[2].build_trees([0.1, 0.9, 1.0], closed="left", force=True)
+                    elif op == "reopen":
+                        cats = [yaw.Catalog(c.cache_directory) for c in cats]
+                    elif op == "measure_same":
+                        measure(cats, cfg)
+                    elif op in ("other_handle_other_edges", "other_handle_unbinned"):
+                        for c in cats:
+                            other = yaw.Catalog(c.cache_directory)
+                            other.build_trees([0.1, 0.25, 0.55, 1.0] if (c.has_redshifts and op == "other_handle_other_edges") else None, closed="right")
+                    elif op == "other_scales_measurement":
+                        other = yaw.Configuration.create(rmin=[100, 1000], rmax=[900, 20000], edges=[0.1, 0.55, 1.0], closed="left")
+                        measure(cats, other)
+                got = measure(cats, cfg)
+            except Exception as e:  # noqa: BLE001 - a measurement that fails after a history that fresh caches survive is a difference
+                got = ("raised", type(e).__name__, str(e)[:120])
             evals += 1
-            if got != base and len(viol) < 5:
+            if got != base and len(viol) < 5 and got[0] == "raised":
+                viol.append(dict(id="bounded:history_independence", history=list(h), raised=f"{got[1]}: {got[2]}"))
+            elif got != base and len(viol) < 5:
                 viol.append(dict(id="bounded:history_independence", history=list(h), differs_in=[k for k, (a, b) in enumerate(zip(got, base)) if a != b]))
             for c in cats:
                 shutil.rmtree(c.cache_directory, ignore_errors=True)
@@ -295,7 +320,8 @@ def bounded(opts):
     thorough = opts.get("tier") == "thorough"
     viol, evals = _run_histories(2 if thorough else 1)
     return dict(kind="bounded", bound=f"all histories of length <= {2 if thorough else 1} over 7 operations (other edges, other closed side, same "
-                "binning, unbinned use, forced rebuild, reopening, measurement with other binning/scales) on one catalog triple "
+                "binning, unbinned use, forced rebuild, reopening, measurement with other binning/scales; plus three histories in which the "
+                "caches are rebuilt through other handles between two uses of the same catalog objects) on one catalog triple "
                 "(3 patches, 240 objects with redshifts exactly on bin edges), followed by a cross- and an autocorrelation; bit-wise "
                 "comparison with the result from fresh caches", evaluations=evals, distinct_nontrivial=max(evals - 1, 0), violations=viol,
                 samples=[list(h) for h in _histories(1)[:4]], wall_s=round(time.time() - t0, 2),
